@@ -69,6 +69,12 @@ def make_cases(rng, tier):
             runs = [{"advance_ms": gap, "scripts": [{"name": "s", "text": short_script(k), "suspend": rng.random() < 0.5}]} for _ in range(3)]
             cases.append({"id": "gap%d-%d-%d" % (n, gap, k), "runs": runs, "kinds": [("short", k)] * 3,
                           "conf": {"max_runtime_ms": MAXMS, "clock": {"start_ms": 5000, "tick_us": 1000}}})
+        # short runs that sleep for a fraction of the limit (the deadline is also polled while everything sleeps)
+        n += 1
+        nap = 'diag_log ["M",1]; sleep %g; diag_log ["M",2]; [] spawn {sleep %g; diag_log ["M",3];}; diag_log ["M",4];' % (MAXMS / 5000.0, MAXMS / 4000.0)
+        runs = [{"advance_ms": gap, "scripts": [{"name": "s", "text": nap, "suspend": True}]} for _ in range(3)]
+        cases.append({"id": "nap%d-%d" % (n, gap), "runs": runs, "kinds": [("short", 4)] * 3,
+                      "conf": {"max_runtime_ms": MAXMS, "clock": {"start_ms": 5000, "tick_us": 1000}}})
     return cases
 
 
